@@ -228,6 +228,7 @@ func main() {
 			for j := range in.Endpoints {
 				in.Endpoints[j].NoPod = false // every endpoint has a pod here
 			}
+			in.deriveGroups()
 			selector := i%2 == 0
 			out, ok := runBGRendered(rdir, in, selector)
 			if !ok {
@@ -256,12 +257,19 @@ func main() {
 	var bgs []bgInput
 	if o.Replay == "" {
 		bgs = append(bgs, bgInput{IW: 100, Weights: []int{90, 10, 0}, Endpoints: []bgEndpoint{{Groups: []int{0}}, {Groups: []int{1}}, {Groups: []int{2}}}})
+		// a group with an empty label value and a pod that lacks the key altogether
+		for _, pod := range []bool{false, true} {
+			bgs = append(bgs, bgInput{IW: 100, Pod: pod, Weights: []int{75, 25}, Labels: [][2]string{{"track", ""}, {"track", "canary"}},
+				Endpoints: []bgEndpoint{{PodLabels: map[string]string{"track": ""}}, {PodLabels: map[string]string{"track": "canary"}},
+					{PodLabels: map[string]string{"role": "web"}}, {PodLabels: map[string]string{}}}})
+		}
 		nb := o.Count(1500, 60000)
 		for i := 0; i < nb; i++ {
 			bgs = append(bgs, genBG(rng))
 		}
 	}
 	for _, in := range bgs {
+		in.deriveGroups()
 		out := runBG(in)
 		live := 0
 		for _, e := range in.Endpoints {
